@@ -45,14 +45,18 @@ def _fn_params(fn: ast.FunctionDef):
     return out, order
 
 
-def _reassigned(fn: ast.FunctionDef, name: str) -> bool:
+def _reassigned(fn: ast.FunctionDef, name: str, allow: int = 0) -> bool:
+    """`name` is assigned more than `allow` times in fn"""
+    count = 0
     for n in ast.walk(fn):
         if isinstance(n, (ast.Assign, ast.AugAssign, ast.AnnAssign)):
             targets = n.targets if isinstance(n, ast.Assign) else [n.target]
             for t in targets:
                 for s in ast.walk(t):
                     if isinstance(s, ast.Name) and s.id == name:
-                        return True
+                        count += 1
+                        if count > allow:
+                            return True
         if isinstance(n, (ast.For, ast.With, ast.NamedExpr)):
             for s in ast.walk(n.target if isinstance(n, (ast.For, ast.NamedExpr)) else ast.Module(body=[], type_ignores=[])):
                 if isinstance(s, ast.Name) and s.id == name:
@@ -93,8 +97,9 @@ def translate(repo: Path):
     ok = True
     # 1. save_parameters' own signature
     try:
-        pu = ast.parse((root / "core" / "parameter_utils.py").read_text())
-        sp = next(n for n in ast.walk(pu) if isinstance(n, ast.FunctionDef) and n.name == "save_parameters")
+        import tr_saveparams
+
+        _p, _t, sp = tr_saveparams.find_definition(repo)
         sp_params, sp_order = _fn_params(sp)
     except Exception as e:  # noqa: BLE001
         return _emit([], False, [f"cannot read save_parameters: {e}"])
@@ -219,6 +224,20 @@ def translate(repo: Path):
         except SyntaxError:
             continue
         rel = str(f.relative_to(repo))
+        consts = {n.targets[0].id for n in tree.body if isinstance(n, ast.Assign) and len(n.targets) == 1
+                  and isinstance(n.targets[0], ast.Name) and isinstance(n.value, ast.Constant) and isinstance(n.value.value, str)}
+        for fn_ in [x for x in ast.walk(tree) if isinstance(x, ast.FunctionDef)]:
+            # local aliases of the configured value: v = data['checkpoint'] (assigned once)
+            aliases = set(consts)
+            for a in ast.walk(fn_):
+                if isinstance(a, ast.Assign) and len(a.targets) == 1 and isinstance(a.targets[0], ast.Name) \
+                        and _name_expr_ok(a.value, aliases) and not _reassigned(fn_, a.targets[0].id, allow=1):
+                    aliases.add(a.targets[0].id)
+            for d in ast.walk(fn_):  # {'checkpoint': <expr>} handed on as an option
+                if isinstance(d, ast.Dict):
+                    for k, v in zip(d.keys, d.values):
+                        if isinstance(k, ast.Constant) and k.value == "checkpoint":
+                            name_sites.append((f"{rel}:{d.lineno} {{'checkpoint': {ast.unparse(v)[:60]}}}", _name_expr_ok(v, aliases)))
         for n in ast.walk(tree):
             tgt = val = None
             if isinstance(n, ast.Assign) and len(n.targets) == 1:
@@ -236,7 +255,7 @@ def translate(repo: Path):
     return _emit([(l, sf, lean_opt(s), lean_opt(o)) for l, sf, s, o in sites], ok, notes, raw=sites, names=name_sites)
 
 
-def _name_expr_ok(e) -> bool:
+def _name_expr_ok(e, aliases=()) -> bool:
     """the checkpoint name is stored exactly as configured: a string literal / None / False, the value read from
     the configuration (`data['checkpoint']`, `kwargs.get('checkpoint', <literal>)`) or a plain parameter"""
     if isinstance(e, ast.Constant):
@@ -248,7 +267,7 @@ def _name_expr_ok(e) -> bool:
             and isinstance(e.func.value, ast.Name) and e.args and isinstance(e.args[0], ast.Constant) \
             and e.args[0].value == "checkpoint" and all(isinstance(a, ast.Constant) for a in e.args[1:]):
         return True
-    if isinstance(e, ast.Name) and e.id == "checkpoint":
+    if isinstance(e, ast.Name) and (e.id in ("checkpoint", "file_name") or e.id in aliases):
         return True
     return False
 
